@@ -1,7 +1,70 @@
-(** C18 — placeholder statement while BlockP.v is being written (replaced below) *)
-From RL Require Import Proofs.CrcP.
-From Coq Require Import NArith.
+(** * C18 — corrupted column data is detected, not returned.
+    Only statements, each closed by [exact], with its assumptions printed. *)
+From RL Require Import Model.Codec Model.Block Proofs.CrcP Proofs.BlockP.
+From Coq Require Import NArith Lia.
+Open Scope Z_scope.
+
+(** the CRC register never forgets a single flipped bit, whatever follows it *)
 Theorem crc_register_detects_single_bit : forall l k s, (s < 2^32)%N -> (k < length l)%nat ->
   Crc.run s (Crc.flip k l) <> Crc.run s l.
 Proof. exact run_detects_single_bit. Qed.
+
+(** CRC-32 of a byte string changes under every single-bit flip *)
+Theorem crc32_detects_single_bit : forall bs k, is_bytes bs -> (k < 8 * length bs)%nat ->
+  crc32 (flip_bit bs k) <> crc32 bs.
+Proof. exact crc32_flip. Qed.
+
+(** a block written by the engine verifies, and no single-bit corruption of it does — wherever the
+    bit lies: data, block type, checksum type or checksum (the guard [crc32 .. <> 0] is needed only
+    for the one flip that turns the checksum type into None) *)
+Theorem block_accepts_itself : forall t body, valid_block_type t = true -> verify_block (mk_block t body) = true.
+Proof. exact verify_block_ok. Qed.
+Theorem mk_block_is_the_written_block : forall t body, mk_block t body = trailer t true body.
+Proof. exact mk_block_trailer. Qed.
+Theorem block_single_bit_flip_detected : forall t body k,
+  valid_block_type t = true -> is_bytes body -> crc32 (body ++ sbe_enc 4 t) <> 0 ->
+  (k < 8 * length (mk_block t body))%nat ->
+  verify_block (flip_bit (mk_block t body) k) = false.
+Proof. exact block_flip_detected. Qed.
+
+(** first and every later read: a block that does not verify is never served, cache included *)
+Theorem read_sequence_safe : forall file index id off len n c,
+  cache_sound file index c -> nth_error index id = Some (off, len) ->
+  verify_block (slice file off len) = false ->
+  Forall (fun r => r = RErr) (get_blocks file index c (repeat id n)).
+Proof. exact corrupted_block_never_read. Qed.
+Theorem cache_stays_sound : forall file index c id, cache_sound file index c ->
+  cache_sound file index (fst (get_block file index c id)).
+Proof. exact get_block_sound. Qed.
+
+(** index files *)
+Theorem index_accepts_itself : forall records, Forall rec_ok records -> Z.of_nat (length records) < 2 ^ 64 ->
+  parse_index (index_file true records) = Some records.
+Proof. exact index_file_ok. Qed.
+Theorem index_single_bit_flip_detected : forall records k,
+  Forall rec_ok records -> Z.of_nat (length records) < 2 ^ 64 ->
+  is_bytes (flat_map frame_enc records) -> crc32 (flat_map frame_enc records) <> 0 ->
+  (k < 8 * length (index_file true records))%nat ->
+  parse_index (flip_bit (index_file true records) k) = None.
+Proof. exact index_flip_detected. Qed.
+
+(** known finding KF_C18_forged_trailer (refutation of "any byte overwrite is detected") *)
+Theorem forged_trailer_refutes_overwrite_detection : forall t body', valid_block_type t = true ->
+  verify_block ((body' ++ sbe_enc 4 t) ++ sbe_enc 4 0 ++ ube_enc 8 0) = true.
+Proof. exact forged_trailer_accepted. Qed.
+
+(** non-vacuity: a concrete block meets the hypotheses *)
+Example block_hypotheses_hold :
+  valid_block_type 3 = true /\ is_bytes [1; 0; 0; 0; 5] /\ crc32 ([1; 0; 0; 0; 5] ++ sbe_enc 4 3) <> 0.
+Proof. split; [reflexivity|]. split; [repeat constructor; cbn; lia|vm_compute; discriminate]. Qed.
+
 Print Assumptions crc_register_detects_single_bit.
+Print Assumptions crc32_detects_single_bit.
+Print Assumptions block_accepts_itself.
+Print Assumptions mk_block_is_the_written_block.
+Print Assumptions block_single_bit_flip_detected.
+Print Assumptions read_sequence_safe.
+Print Assumptions cache_stays_sound.
+Print Assumptions index_accepts_itself.
+Print Assumptions index_single_bit_flip_detected.
+Print Assumptions forged_trailer_refutes_overwrite_detection.
